@@ -177,11 +177,49 @@ pub fn run(ctx: &Ctx) -> Report {
             r.fail(k, idx, case.json(), dd);
         }
     });
+    // --- threshold sweep: scalings a ladder magnitude away from 0, +-1 and +-2, and joint vectors a ladder magnitude
+    // away from zero on the driven / coupled joints
+    let lad = crate::common::ladder::ladder(&["parallelogram.rs"]);
+    let lad: Vec<f64> = if thorough { lad } else { lad.into_iter().step_by(2).collect() };
+    let centres = [0.0, 1.0, -1.0, 2.0, -2.0];
+    let spairs: [(usize, usize); 6] = [(1, 2), (2, 1), (0, 5), (5, 3), (4, 1), (3, 4)];
+    let ssizes = [lad.len(), centres.len(), 2, spairs.len(), 3, 2];
+    let sn = par::product(&ssizes);
+    let srep = par::run(sn, |idx, r| {
+        let mut ix = [0usize; 6];
+        par::decode(idx, &ssizes, &mut ix);
+        let dlt = lad[ix[0]] * if ix[2] == 0 { 1.0 } else { -1.0 };
+        let (d, c) = spairs[ix[3]];
+        let p = &robots[ix[5] * (robots.len() - 1)];
+        let mut q = user_joints(p, &thetas[0]);
+        let s = match ix[4] {
+            0 => centres[ix[1]] + dlt,
+            _ => [0.5, 1.0, -2.0, 0.0, -0.5][ix[1]],
+        };
+        // variants 1 / 2: the ladder sits on the driven / the coupled joint value instead of on the scaling
+        if ix[4] == 1 {
+            q[d] = dlt;
+        } else if ix[4] == 2 {
+            q[c] = dlt;
+        }
+        let para = Wrap::Para { driven: d, coupled: c, scaling: s };
+        let desc = if idx % 2 == 0 { StackDesc::bare(*p).with(para) } else { StackDesc::bare(*p).with(Wrap::Tool(axial)).with(para).with(Wrap::Base(g)) };
+        let case = Case { stack: desc, q };
+        let (fails, sig) = eval(&case);
+        r.states += 1;
+        r.transitions += 6;
+        r.sig(format!("ladder:{sig}"));
+        for (k, dd) in fails {
+            r.fail(format!("{k}/ladder"), n + idx, case.json(), dd);
+        }
+    });
+    rep.merge(srep);
+    rep.set("threshold_sweep", json!({"ladder_values": lad.len(), "scaling_centres": centres.to_vec(), "pairs": spairs.len(), "on": ["scaling", "driven joint value", "coupled joint value"]}));
     rep.traces_validated = rep.transitions;
     rep.rule = "all 30 ordered (driven != coupled) pairs x scalings {-2,-1,-.5,0,.5,1,2} x stack variants {P, P under a second P (6 pairs), tool under P, \
                 P under base, P under a generic tool} x robots (dof 5/6) x joint vectors; oracle: forward and link poses equal (1e-12) to the inner robot at the \
                 substituted joint vector, equal to the composed reference, every answer of the four inverse entry points maps back onto the request; \
-                signature = (stack shape, answers)".into();
+                threshold sweep: scaling = {0, +-1, +-2} +- each ladder magnitude, and driven / coupled joint value = +- each ladder magnitude; signature = (stack shape, answers)".into();
     rep.set("axes", json!({"pairs": pairs.len(), "scalings": scalings.len(), "stack_variants": n_var, "robots": robots.len(), "joint_vectors": thetas.len()}));
     rep
 }
